@@ -108,7 +108,11 @@ def run_property(prop, module, tier, configs, explanation, assumptions, explain=
     failing = [o for o in rep.obligations if not o["ok"]]
     new = [o for o in failing if o["key"] not in known_keys]
     matched = [o for o in failing if o["key"] in known_keys]
+    printed = set()
     for o in matched:
+        if o["key"] in printed:
+            continue
+        printed.add(o["key"])
         print("KNOWN-FINDING: property=%s %s %s" % (prop, o["key"], known_keys[o["key"]].get("what", o["detail"]).replace("\n", " ")))
     stale = [k for k in known_keys if k not in {o["key"] for o in failing}]
 
